@@ -213,7 +213,7 @@ def build_modelrun(unit="det", ocaml_pkgs="zarith", ocaml_flags=""):
     coq_makefile()
     exsrc = strip_comments(open(os.path.join(COQ, "Extract", "Ex_%s.v" % unit)).read())
     deps = []
-    for m in re.finditer(r"From\s+AG\s+Require\s+(?:Import|Export)?([^.]*(?:\.[A-Za-z_][^.\s]*)*)\.\s", exsrc):
+    for m in re.finditer(r"From\s+AG\s+Require\s+(?:Import\s+|Export\s+)?((?:[A-Za-z_][\w']*(?:\.[A-Za-z_][\w']*)*\s*)+)\.(?:\s|$)", exsrc):
         for tok in m.group(1).split():
             deps.append(tok.replace(".", "/") + ".vo")
     rc, out = sh("make -j16 %s" % " ".join(deps), cwd=COQ, timeout=3000)
